@@ -268,7 +268,7 @@ theorem C19_failed_forward_not_reported_forwarded
 /-- Queue entries made by `recv_bundle` have no 'delete' recorded (it returns before queueing). -/
 theorem C19_queue_no_delete (cfg : Cfg) (st : St) (now : Nat) (rx : RxBundle) (c : Ctr)
     (h : c ∈ (recvBundle cfg st now rx).1.fwdQ) : c ∈ st.fwdQ ∨ hasAct c.actions .delete = false := by
-  rcases recv_cases cfg st now rx with h0 | ⟨_, c1, _, h1⟩
+  rcases recv_cases cfg st now rx with h0 | ⟨_, c1, _, _, h1⟩
   · rw [h0] at h; exact Or.inl h
   · rw [h1] at h
     unfold dispose at h
